@@ -103,6 +103,15 @@ def scenarios(thorough):
     out.append({"phase": "detect", "label": "plan-require-metadata-set-twice", "script": {"detect": {"kind": "pass_plan", "plan": [
         ["requires_meta_n", "k1", {"list": ["k1", "k2", "k3"], "t": {"k1": [1, 2, 3]}}, {"list": ["k3", "p1", "p2"], "t": {"k1": [3, 4, 5], "k2": ["web", "worker", "cron"]}}],
         ["provides", "k1"]]}}})
+    # path-list values that repeat an entry (3 distinct entries, one of them twice), with a delimiter: written as given
+    rep_env = [["build", "append", "PATH", "/k1/bin:/k2/bin:/k3/bin:/k1/bin"], ["build", "delim", "PATH", ":"], ["launch", "prepend", "LD_LIBRARY_PATH", "/p1:/p2:/p3:/p2:/p1"], ["launch", "delim", "LD_LIBRARY_PATH", ":"],
+               ["process:web", "append", "X", "web,worker,cron,web"], ["process:web", "delim", "X", ","]]
+    out.append({"phase": "build", "label": "path-lists-with-repeated-entries:write_env", "script": {"build": {"kind": "pass", "ops": [{"op": "cached", "name": "a", "launch": True}, {"op": "write_env", "name": "a", "env": rep_env}]}}})
+    out.append({"phase": "build", "label": "path-lists-with-repeated-entries:handle", "script": {"build": {"kind": "pass", "ops": [{"op": "handle", "name": "a", "types": [True, True, True], "strategy": "recreate", "result": dict(RESULT3, env=rep_env)}]}}})
+    # an exec.d name re-installed from another source of the same length (the sources' time stamps
+    # are equal in one run and differ in the next: file times are no input)
+    out.append({"phase": "build", "label": "exec-d-reinstalled-from-same-sized-source", "script": {"build": {"kind": "pass", "ops": [{"op": "cached", "name": "a", "launch": True}, {"op": "write_exec_d", "name": "a", "programs": {"prog": "p1", "other": "p3"}},
+               {"op": "write_exec_d", "name": "a", "programs": {"prog": "p2", "other": "p3"}}]}}})
     # one exec.d program name registered twice, from sources below different directories
     out.append({"phase": "build", "label": "exec-d-name-registered-twice", "script": {"build": {"kind": "pass", "ops": [{"op": "cached", "name": "a", "launch": True}, {"op": "write_exec_d_pairs", "name": "a",
                "programs": [["prog", "p1"], ["prog", "ALT:p1"], ["other", "ALT:p2"], ["other", "p2"], ["third", "ALT:p3"]]}]}}})
@@ -169,6 +178,10 @@ def run_one(arg):
         open(fp, "w").write(content)
     # a second source directory whose name sorts before the buildpack directory in one run and
     # after it in the next (temp paths differ between runs; only their content is an input)
+    if seed % 2:
+        # every source file carries the same time stamp in this run
+        for n in os.listdir(w.p("bp", "src")):
+            os.utime(w.p("bp", "src", n), (1_000_000_000, 1_000_000_000))
     alt = w.p("aaa-alt" if seed % 2 else "zzz-alt")
     os.makedirs(alt)
     for n in ("p1", "p2", "p3"):
